@@ -503,7 +503,7 @@ pub fn run(tier: Tier, seed: u64, replay: Option<&std::path::Path>) -> i32 {
         tier,
         seed,
         level: "exploration",
-        rule: "scenarios inside one executor: 2..4 appender threads x 1..4 frames over 3 contexts (some ephemeral), 1..2 pollers looping read_sync(last_id = last frame seen) in a context or over all contexts, 0..2 followers (tail / from the start), under a generated schedule: per (writer, sync point of Store::append in {after id assignment, before commit, after commit, before broadcast, after broadcast}, occurrence) a delay of 0.2/1/5/20 ms; one case in ten is a hook-free stress (4..8 writers x 20..60 appends). Oracle on the event log: per-writer ids increase; every poll sequence strictly increasing; the concatenation of a poller's results equals the final stream in its scope (a frame that became visible below an already observed id shows as a frame the poller never saw); each follower's sequence strictly increasing, in scope and complete. Non-trivial = two appends overlapped in time while a poll or a delivery fell into the overlap. Distinct by (writer sizes, readers, schedule) hash.",
+        rule: "scenarios inside one executor: 2..4 appender threads x 1..4 frames over 3 contexts (some ephemeral), 1..2 pollers looping read_sync(last_id = last frame seen) in a context or over all contexts, 0..2 followers (tail / from the start), in three cases out of ten with writers that remove the frame they appended one or two appends earlier (a reader's cursor may then name a frame that is gone; such frames may or may not have been seen), under a generated schedule: per (writer, sync point of Store::append in {after id assignment, before commit, after commit, before broadcast, after broadcast}, occurrence) a delay of 0.2/1/5/20 ms; one case in ten is a hook-free stress (4..8 writers x 20..60 appends). Oracle on the event log: per-writer ids increase; every poll sequence strictly increasing; the concatenation of a poller's results equals the final stream in its scope (a frame that became visible below an already observed id shows as a frame the poller never saw); each follower's sequence strictly increasing, in scope and complete. Non-trivial = two appends overlapped in time while a poll or a delivery fell into the overlap. Distinct by (writer sizes, readers, schedule) hash.",
         assumptions: vec![
             "interleavings are sampled at the granularity of the sync points plus natural jitter; not exhaustive".into(),
             "a tail follower is only required to see frames whose append started 2 ms after its subscription was in place".into(),
